@@ -45,7 +45,7 @@ def interp_array_to_approx_dt(values, dt, target_dt=0.01, even=True):
     t_int = np.arange(len(values))
     new_npts = factor * len(values)
     if even:
-        new_npts = 2 * int(new_npts / 2)
+        new_npts = 2 * int(np.ceil(new_npts) / 2)  # count the grid points first (every k-th sample), then force even
     t_db = np.arange(new_npts) / factor
     acc_interp = np.interp(t_db, t_int, values)
     return acc_interp, dt / factor
